@@ -29,3 +29,14 @@ def LogOk (st : LogSt) : Prop :=
   (st.file st.wcFile).length = st.wcOff ∧ ∀ n, st.wcFile < n → st.file n = []
 
 end BV.C05
+
+namespace BV.C05
+open BV.C05.DbModel
+
+/-- `handleRollback` / the repair of `reconcileDB`: delete the files beyond `f`, cut file `f` at `o`,
+put the write cursor there -/
+def logTruncate (st : LogSt) (f o : Nat) : LogSt :=
+  let kept := st.files.filter (fun p => p.1 ≤ f)
+  ⟨fileSet kept f ((fileGet kept f).getD [] |>.take o), f, o⟩
+
+end BV.C05
